@@ -410,32 +410,42 @@ async fn run_spec(spec: &Spec) -> Out {
 	close_gate.notify_one();
 	gate.notify_one();
 
-	// for generated bytes: if the client survived, answer what is outstanding
+	// faults that need not end the connection: if the client survived, the server answers what is outstanding - and keeps
+	// answering what the client writes later (a request that a delayed or gated send task puts on the wire after the first
+	// pass is a request like any other), until every operation has finished or a second has passed
 	if !expect_dead {
 		tokio::time::sleep(Duration::from_millis(5)).await;
-		if client.is_connected() {
-			let mut todo: Vec<WireMsg> = std::mem::take(&mut unanswered);
+		let mut todo: Vec<WireMsg> = std::mem::take(&mut unanswered);
+		for _round in 0..200 {
+			if !client.is_connected() {
+				break;
+			}
 			for m in srv.drain_out() {
 				if let jrv::script::ClientOut::Msg { text, .. } = m {
 					todo.push(parse_wire(&text));
 				}
 			}
-			for m in todo {
-				{
-					match m {
-						WireMsg::Single(q) => {
-							if let Some(id) = &q.id {
-								srv.push_text(if q.method == "sub" { ok_response(id, json!(format!("late-sub-{id}"))) } else { ok_response(id, json!("fine")) });
-							}
+			for m in todo.drain(..) {
+				match m {
+					WireMsg::Single(q) => {
+						if let Some(id) = &q.id {
+							srv.push_text(if q.method == "sub" { ok_response(id, json!(format!("late-sub-{id}"))) } else { ok_response(id, json!("fine")) });
 						}
-						WireMsg::Batch(reqs) => {
-							let parts: Vec<String> = reqs.iter().map(|q| ok_response(q.id.as_ref().unwrap_or(&Value::Null), json!("fine"))).collect();
-							srv.push_text(array_of(&parts));
-						}
-						_ => {}
 					}
+					WireMsg::Batch(reqs) => {
+						let parts: Vec<String> = reqs.iter().map(|q| ok_response(q.id.as_ref().unwrap_or(&Value::Null), json!("fine"))).collect();
+						srv.push_text(array_of(&parts));
+					}
+					_ => {}
 				}
 			}
+			if tasks.iter().all(|(_, _, _, t)| t.is_finished()) {
+				break;
+			}
+			tokio::time::sleep(Duration::from_millis(5)).await;
+			// (gated schedules: whatever still waits at a gate may go on)
+			gate.notify_waiters();
+			gate.notify_one();
 		}
 	}
 
